@@ -3,6 +3,10 @@ namespace MaddyVerif.Expect.FuncSkelC18
 
 /-- (declaration, fingerprint of its normalised text): comments, layout, local names and log/trace statements do not count -/
 def funcs : List (String × String) := [
+  ("framework/address/rfc6531.go:SelectIDNA", "e0700e941932dff7"),
+  ("framework/address/rfc6531.go:ToASCII", "8bd2a2da575de4f6"),
+  ("framework/address/rfc6531.go:ToUnicode", "13347bc8d63ff816"),
+  ("framework/address/split.go:Split", "2149bd8e40fd6735"),
   ("framework/module/msgmetadata.go:MsgMetadata.DeepCopy", "c0d2cd14145168fe"),
   ("framework/module/msgmetadata.go:type MsgMetadata", "35edae60b069bca5"),
   ("internal/dsn/dsn.go:GenerateDSN", "cafaf64ea3d645c5"),
